@@ -593,8 +593,7 @@ class S:
                     neg.append(hs < 0)
                 elif hs < 0:
                     continue
-                res, _ = check_sat(CTX.facts() + [z3.Or(neg)], CTX.hint_timeout)
-                if res == "unsat":
+                if hint_valid(neg):
                     ent = ("hint", h)
                     break
             if ent is None:
@@ -735,8 +734,8 @@ def arccos(x):
             sa = qsign_term(av)
             neg.append(term(sa) < 0)
             neg.append(term(qsign_term(qadd(av, Q(PI), -1))) > 0)
-            res, _ = check_sat(CTX.facts() + pi_axioms() + [z3.Or(neg)], CTX.hint_timeout)
-            if res == "unsat":
+            CTX.axioms.extend(a for a in pi_axioms() if not any(a.eq(b) for b in CTX.axioms))
+            if hint_valid(neg):
                 ent = ("hint", av)
                 break
         if ent is None:
@@ -768,8 +767,8 @@ def arctan(x):
                 neg = [term(l) != term(r),
                        term(qsign_term(qadd(b, qmul(Q(half), Q(PI))))) <= 0,
                        term(qsign_term(qadd(b, qmul(Q(half), Q(PI)), -1))) >= 0]
-                res, _ = check_sat(CTX.facts() + pi_axioms() + [z3.Or(neg)], CTX.hint_timeout)
-                if res == "unsat":
+                CTX.axioms.extend(a for a in pi_axioms() if not any(a.eq(b_) for b_ in CTX.axioms))
+                if hint_valid(neg):
                     ent = ("hint", b)
                     break
             if ent is not None:
@@ -789,6 +788,67 @@ def arctan(x):
         return S(b)
     one = S(1)
     return S(b, (S(x.d) / (one + S(x.v) * S(x.v))).v)
+
+
+# ----------------------------------------------------------------------------- pinned queries
+def _rand_value(rng, kind):
+    x = Fraction(rng.randint(-128, 128), 64)
+    if kind in ("pos",):
+        x = abs(x) + Fraction(1, 8)
+    elif kind == "nonneg":
+        x = abs(x)
+    return x
+
+
+def pinned_queries(ctx, rng, tries):
+    """yield lists of pin equalities over all real inputs (+ consistent Weierstrass symbols)"""
+    for _ in range(tries):
+        pins = []
+        subst = []
+        for name, sym in ctx.inputs.items():
+            if z3.is_bool(sym):
+                continue
+            kind = ctx.input_kind.get(name, "real")
+            if kind.startswith("w:"):
+                continue
+            val = _rand_value(rng, kind)
+            pins.append(sym == term(val))
+            subst.append((sym, term(val)))
+        # consistent w = tan(a/2) for angles whose value is determined by the pinned inputs
+        for kind, w, arg in ctx.atom_list:
+            if kind != "w":
+                continue
+            try:
+                num = z3.simplify(z3.substitute(term(arg.n), *subst))
+                den = z3.simplify(z3.substitute(term(_dpow(arg.e)), *subst)) if arg.e else z3.RealVal(1)
+                if z3.is_rational_value(num) and z3.is_rational_value(den) and den.numerator_as_long() != 0:
+                    a = Fraction(num.numerator_as_long(), num.denominator_as_long()) / Fraction(den.numerator_as_long(), den.denominator_as_long())
+                    t = math.tan(float(a) / 2)
+                    if math.isfinite(t) and abs(t) < 1e6:
+                        tv = Fraction(t).limit_denominator(10 ** 12)
+                        pins.append(w == term(tv))
+                        subst.append((w, term(tv)))
+            except Exception:
+                pass
+        yield pins
+
+
+
+
+_HINT_RNG = __import__('random').Random(12345)
+
+
+def hint_valid(neg_disjuncts):
+    """is the hint valid, i.e. facts /\\ (d1 \\/ d2 ...) unsat?  A pinned-input refutation (cheap) is tried first
+    so that an inapplicable hint costs milliseconds; only then the proof attempt with the hint time-out."""
+    facts = CTX.facts()
+    neg = z3.Or(neg_disjuncts) if len(neg_disjuncts) > 1 else neg_disjuncts[0]
+    for pins in pinned_queries(CTX, _HINT_RNG, 2):
+        r, _ = check_sat(facts + pins + [neg], 2000)
+        if r == 'sat':
+            return False
+    r, _ = check_sat(facts + [neg], CTX.hint_timeout)
+    return r == 'unsat'
 
 
 # ----------------------------------------------------------------------------- exploration
